@@ -911,7 +911,7 @@ def d1_17(ctx):
         return {"plc_tag": a[0].upper(), "rw": a[1] if len(a) > 1 else k.get("rw")}
 
     str_hook = lambda call, env, it: "<error text>" if (call_name(call) or "") == "str" and len(call.args) == 1 and isinstance(call.args[0], ast.Name) and call.args[0].id == "err" else UNKNOWN  # noqa: E731
-    for label, tgs, rw in (("three tags, the middle one bad", ["a", "bad", "b"], "r"), ("write mode", ["x"], "w"), ("generator of tags", ["p", "q"], "w")):
+    for label, tgs, rw in (("three tags, the middle one bad", ["a", "bad", "b"], "r"), ("write mode", ["x"], "w"), ("generator of tags", ["p", "q"], "w"), ("the same tag requested twice", ["a", "b", "a", "bad", "bad"], "r")):
         kind, res = run_function(ctx, lx.module, fn, {"self": _me(), fn.args.args[1].arg: list(tgs), fn.args.args[2].arg: rw}, call_hook=chain(str_hook, self_call("_parse_tag_request", parse)), deep=False)
         want = {i: ({"request_id": i, "request_tag": t, "plc_tag": t.upper(), "rw": rw} if t != "bad" else {"request_id": i, "request_tag": t, "error": "<error text>"}) for i, t in enumerate(tgs)}
         _report(ctx, ckey(lx.key + "._parse_requested_tags", f"witness:{label}"), fn, label, (kind, res), ("return", want), "_parse_requested_tags")
@@ -1623,6 +1623,192 @@ def d5_17(ctx):
         if len(seen) != len(chunks):
             diffs.append(f"{len(seen)} request(s) sent (expected {len(chunks)})")
         ctx.check(not diffs, key, fn, f"{label}: {len(chunks)} request(s), offsets advance by the bytes received", f"template read ({label}): {diffs[:2]}", witness=label)
+
+
+@rule("C05", "D5.18", "T-WITNESS", floor=6)
+def d5_18(ctx):
+    """_parse_template_data_member_info folded on witness member records (8 bytes: UINT info, UINT type, UDINT offset; the
+    structure lookup and the Array factory are markers): an elementary type code gives an atomic member of that type, BOOL takes
+    the info field as its bit number, every other member takes it as its array length (an Array of that length when non-zero);
+    a code that is no elementary type is a structure looked up by its low 12 bits, with the definition's name."""
+    import struct as _st
+
+    from ..consteval import ClassRef
+
+    lx = _lx(ctx)
+    fn = lx.methods["_parse_template_data_member_info"]
+    width = ctx.folder.module_value("pycomm3.const", "TEMPLATE_MEMBER_INFO_LEN")
+    ctx.check(width == 8, ckey("pycomm3.const:TEMPLATE_MEMBER_INFO_LEN"), fn, "a member record is 8 bytes", f"TEMPLATE_MEMBER_INFO_LEN is {width!r}; a template member record is UINT info + UINT type + UDINT offset = 8 bytes")
+    udt = {"name": "udt7", "type_class": ("tc", "udt7")}
+    cases = [
+        ("DINT scalar", (0, 0xC4, 4), {"offset": 4, "tag_type": "atomic", "data_type": "DINT", "data_type_name": "DINT", "array": 0, "type_class": "DINT"}, None),
+        ("BOOL, bit 3", (3, 0xC1, 8), {"offset": 8, "tag_type": "atomic", "data_type": "BOOL", "data_type_name": "BOOL", "bit": 3, "type_class": "BOOL"}, None),
+        ("BOOL, bit 0", (0, 0xC1, 9), {"offset": 9, "tag_type": "atomic", "data_type": "BOOL", "data_type_name": "BOOL", "bit": 0, "type_class": "BOOL"}, None),
+        ("INT[5]", (5, 0xC3, 12), {"offset": 12, "tag_type": "atomic", "data_type": "INT", "data_type_name": "INT", "array": 5, "type_class": ("Array", 5, "INT")}, None),
+        ("structure", (0, 0x8123, 16), {"offset": 16, "tag_type": "struct", "data_type": udt, "data_type_name": "udt7", "array": 0, "type_class": ("tc", "udt7")}, (0x123, 0x8123)),
+        ("structure[2]", (2, 0x8123, 0x10020), {"offset": 0x10020, "tag_type": "struct", "data_type": udt, "data_type_name": "udt7", "array": 2, "type_class": ("Array", 2, ("tc", "udt7"))}, (0x123, 0x8123)),
+        ("LINT[1]", (1, 0xC5, 24), {"offset": 24, "tag_type": "atomic", "data_type": "LINT", "data_type_name": "LINT", "array": 1, "type_class": ("Array", 1, "LINT")}, None),
+    ]
+
+    def norm(v):
+        if isinstance(v, ClassRef):
+            return v.ci.name
+        if isinstance(v, tuple):
+            return tuple(norm(x) for x in v)
+        return v
+
+    for label, (info, typ, off), want, want_lookup in cases:
+        lookups = []
+
+        def hook(call, env, it, lookups=lookups):
+            n = call_name(call) or ""
+            if n == "Array" and isinstance(call.func, ast.Name):
+                kw = {k.arg: it.ev(k.value, env) for k in call.keywords}
+                a = [it.ev(x, env) for x in call.args]
+                return ("Array", kw.get("length_", a[0] if a else None), kw.get("element_type_", a[1] if len(a) > 1 else None))
+            if attr_path(call.func) == "self._get_data_type":
+                lookups.append(tuple(it.ev(x, env) for x in call.args))
+                return dict(udt)
+            if n in ("str", "repr") and isinstance(call.func, ast.Name) and len(call.args) == 1:
+                v = it.ev(call.args[0], env)
+                if isinstance(v, ClassRef):
+                    return v.ci.name
+            return UNKNOWN
+
+        rec = _st.pack("<HHI", info, typ, off)
+        kind, res = run_function(ctx, lx.module, fn, {"self": _me(), fn.args.args[1].arg: rec}, call_hook=hook, deep=False)
+        key = ckey(lx.key + "._parse_template_data_member_info", f"witness:{label}")
+        if kind == "unknown":
+            ctx.undecided(key, fn, f"_parse_template_data_member_info not foldable on {label}: {res}")
+            continue
+        got = {k: norm(v) for k, v in res.items()} if kind == "return" and isinstance(res, dict) else res
+        ok = kind == "return" and got == want and lookups == ([want_lookup] if want_lookup else [])
+        ctx.check(ok, key, fn, f"{label}: {want}", f"member record {rec.hex()} ({label}) gives {kind} {got!r} with structure lookups {lookups!r}; expected {want!r}" + (f" after one lookup of {want_lookup!r}" if want_lookup else " without a structure lookup"), witness=label)
+
+
+# ---------------------------------------------------------------------------------------------------------------- socket framing
+def _socket_rule(ctx):
+    """Socket.receive and Socket.send folded on witness TCP segmentations (the OS socket is a marker that hands out what is left of
+    the current segment, at most the size asked for, and b"" once the peer has closed): whatever the segmentation, `receive`
+    returns exactly the 24-byte header plus the number of bytes its length field announces - never less, and it does not wait for
+    more once the frame is complete; a peer that closes before that is CommError, and so is a socket error; `send` hands the
+    remainder to the OS until every byte is accepted, and a send that accepts nothing is CommError."""
+    so = ctx.model.cls("pycomm3.socket_:Socket")
+    rcv, snd = so.methods["receive"], so.methods["send"]
+    hdr = lambda n: b"\x6f\x00" + n.to_bytes(2, "little") + bytes(range(20))  # noqa: E731
+
+    def run_receive(segments, fail_at=None):
+        segs = [bytes(x) for x in segments]
+        calls = []
+
+        def hook(call, env, it):
+            path = attr_path(call.func) or ""
+            if path == "self.sock.recv":
+                n = it.ev(call.args[0], env)
+                calls.append(n)
+                if fail_at is not None and len(calls) > fail_at:
+                    raise _Raise("socket.timeout")
+                if len(calls) > 200:
+                    raise _Raise("RuntimeError")  # (a loop that never completes: reported through the outcome)
+                if not isinstance(n, int) or n <= 0:
+                    raise _Raise("ValueError")
+                while segs and not segs[0]:
+                    segs.pop(0)
+                if not segs:
+                    return b""
+                out, segs[0] = segs[0][:n], segs[0][n:]
+                return out
+            if path in ("self.sock.settimeout", "self.sock.setsockopt"):
+                return None
+            return UNKNOWN
+
+        me = Obj(_ci=so, sock=Obj(kind="os-socket"))
+        env = {"self": me}
+        for a_, d_ in zip([x.arg for x in rcv.args.args][-len(rcv.args.defaults):] if rcv.args.defaults else [], rcv.args.defaults):
+            env[a_] = ctx.folder.eval(d_, so.module)
+        kind, res = run_function(ctx, so.module, rcv, env, call_hook=hook, deep=False)
+        left = b"".join(segs)
+        return kind, (bytes(res) if isinstance(res, (bytes, bytearray)) else res), left, calls
+
+    def split(data, sizes):
+        out, i = [], 0
+        for n in sizes:
+            out.append(data[i:i + n])
+            i += n
+        out.append(data[i:])
+        return [x for x in out if x]
+
+    frames = [("no data", hdr(0)), ("1 byte of data", hdr(1) + b"\xaa"), ("20 bytes of data", hdr(20) + bytes(range(100, 120))), ("232 bytes of data (frame = one 256-byte read)", hdr(232) + bytes(232)),
+              ("233 bytes of data", hdr(233) + bytes(233)), ("600 bytes of data", hdr(600) + bytes(i % 251 for i in range(600))), ("a length whose high byte counts (0x0102)", hdr(0x0102) + bytes(0x0102)),
+              ("a length with the top bit set (0x8001)", hdr(0x8001) + bytes(i % 253 for i in range(0x8001)))]
+    for flabel, frame in frames:
+        n = len(frame)
+        seglists = [("one segment", [frame]), ("byte by byte up to the header, rest at once", split(frame, [1] * 24)), ("header split 2 + 1 + 21", split(frame, [2, 1, 21])), ("header split 3 + 21", split(frame, [3, 21])),
+                    ("23 + 1", split(frame, [23, 1])), ("24 + rest", split(frame, [24])), ("25 + rest", split(frame, [25])), ("all but the last byte, then the last", split(frame, [n - 1])),
+                    ("small segments of 7", split(frame, [7] * (n // 7)))]
+        if n > 4096:
+            seglists = [seglists[0], seglists[5], seglists[7]]
+        for slabel, segs in seglists:
+            kind, res, left, calls = run_receive(segs)
+            key = ckey(so.key + ".receive", f"witness:{flabel}:{slabel}")
+            if kind == "unknown":
+                ctx.undecided(key, rcv, f"receive not foldable ({flabel}, {slabel}): {res}")
+                continue
+            ctx.check(kind == "return" and res == frame and not left, key, rcv, f"{flabel}, {slabel}: the whole frame ({n} bytes) is returned",
+                      f"receive on a frame with {flabel} arriving as {slabel} ({[len(x) for x in segs][:8]}...) gives {kind} {(str(len(res)) + ' bytes') if isinstance(res, bytes) else res!r} with {len(left)} byte(s) left unread; "
+                      f"expected the complete {n}-byte frame (24-byte header + the {n - 24} bytes its length field announces)", witness=f"{flabel}/{slabel}")
+        # a frame followed immediately by the next one in its own segment: nothing of the second is needed to finish the first
+        kind, res, left, calls = run_receive([frame, hdr(0)])
+        key = ckey(so.key + ".receive", f"witness:{flabel}:followed by another frame")
+        if kind != "unknown":
+            ctx.check(kind == "return" and isinstance(res, bytes) and res[:n] == frame and len(res) >= n, key, rcv, f"{flabel}: complete when its last byte has arrived", f"receive on {flabel} followed by another frame gives {kind} {res!r}"[:300])
+    # the peer closes early / the socket fails
+    cut = hdr(20) + bytes(20)
+    for label, segs, fail_at in (("peer closes inside the header", [cut[:10]], None), ("peer closes right after the header", [cut[:24]], None), ("peer closes inside the data", [cut[:30]], None), ("peer closes before the first byte", [], None),
+                                 ("the socket times out after the header", [cut[:24]], 1), ("the socket times out at once", [cut], 0)):
+        kind, res, left, calls = run_receive(segs, fail_at)
+        key = ckey(so.key + ".receive", f"witness:{label}")
+        if kind == "unknown":
+            ctx.undecided(key, rcv, f"receive not foldable ({label}): {res}")
+            continue
+        ctx.check((kind, res) == ("raise", "CommError") and len(calls) < 100, key, rcv, f"{label}: CommError", f"receive when {label} gives {kind} {res!r} after {len(calls)} recv call(s); expected CommError (a partial frame must never be returned, and the loop must not spin)")
+    # ---- send
+    msg = bytes(range(200)) * 3
+    for label, accepts, want in (("everything at once", [600], ("return", 600)), ("in three parts", [100, 250, 250], ("return", 600)), ("one byte at a time at first", [1, 1, 598], ("return", 600)), ("all but the last byte, then the last", [599, 1], ("return", 600)),
+                                 ("the OS accepts nothing", [100, 0], ("raise", "CommError")), ("the socket fails", [100, "fail"], ("raise", "CommError"))):
+        sent, script = [], list(accepts)
+
+        def hook(call, env, it, sent=sent, script=script):
+            path = attr_path(call.func) or ""
+            if path == "self.sock.send":
+                data = it.ev(call.args[0], env)
+                if len(sent) > 50:
+                    raise _Raise("RuntimeError")
+                k_ = script.pop(0) if script else len(data)
+                if k_ == "fail":
+                    raise _Raise("ConnectionResetError")
+                k_ = min(k_, len(data))
+                sent.append(bytes(data[:k_]))
+                return k_
+            if path in ("self.sock.settimeout",):
+                return None
+            return UNKNOWN
+
+        env = {"self": Obj(_ci=so, sock=Obj(kind="os-socket")), snd.args.args[1].arg: msg}
+        for a_, d_ in zip([x.arg for x in snd.args.args][-len(snd.args.defaults):] if snd.args.defaults else [], snd.args.defaults):
+            env.setdefault(a_, ctx.folder.eval(d_, so.module))
+        kind, res = run_function(ctx, so.module, snd, env, call_hook=hook, deep=False)
+        key = ckey(so.key + ".send", f"witness:{label}")
+        if kind == "unknown":
+            ctx.undecided(key, snd, f"send not foldable ({label}): {res}")
+            continue
+        ok = (kind, res) == want and (want[0] == "raise" or b"".join(sent) == msg)
+        ctx.check(ok, key, snd, f"send, {label}: {want[0]} {want[1]!r}" + (", every byte handed over once, in order" if want[0] == "return" else ""),
+                  f"send when {label}: {kind} {res!r}, bytes handed to the OS {len(b''.join(sent))} of {len(msg)}" + ("" if b"".join(sent) == msg[:len(b"".join(sent))] else " (not a prefix of the message: bytes repeated or skipped)"))
+
+
+rule("C12", "D12.7", "T-WITNESS", floor=60)(_socket_rule)
+rule("C11", "D11.12", "T-WITNESS", floor=60)(_socket_rule)
 
 
 # ---------------------------------------------------------------------------------------------------------------- path segments
